@@ -406,6 +406,68 @@ def if_chain_rule(ctx, rule, callers=None):
     return n
 
 
+GUARDS_REF = os.path.join(os.path.dirname(os.path.dirname(os.path.abspath(__file__))), 'guards.json')
+
+
+def guard_texts(f):
+    out = []
+    for x in walk_no_nested(f):
+        if isinstance(x, (ast.If, ast.While, ast.IfExp)):
+            out.append(norm(x.test))
+    return sorted(out)
+
+
+def _operands(e, op):
+    if isinstance(e, ast.BoolOp) and isinstance(e.op, op):
+        return [norm(v) for v in e.values]
+    return [norm(e)]
+
+
+def guard_conjunct_rule(ctx, rule, callers=None):
+    """a condition of the pinned tree that disappears while a new condition appears which is the old one with a
+    conjunct/disjunct added or taken away: the guarded statements now run for fewer (or more) cases"""
+    if not os.path.exists(GUARDS_REF):
+        return 0
+    ref = json.load(open(GUARDS_REF))
+    n = 0
+    for m, q, f in ctx.repo.functions():
+        name = '%s.%s' % (m.name, q)
+        if name not in ref:
+            continue
+        if callers is not None and not any(name == c or name.startswith(c + '.') or c == m.name for c in callers):
+            continue
+        cur_nodes = [x.test for x in walk_no_nested(f) if isinstance(x, (ast.If, ast.While, ast.IfExp))]
+        cur = [norm(t) for t in cur_nodes]
+        gone = list(ref[name])
+        new = []
+        for t, node in zip(cur, cur_nodes):
+            if t in gone:
+                gone.remove(t)
+            else:
+                new.append((t, node))
+        if not gone or not new:
+            continue
+        for old in gone:
+            try:
+                old_node = ast.parse(old, mode='eval').body
+            except SyntaxError:
+                continue
+            for t, node in new:
+                for op, wider, narrower in ((ast.And, 'runs in more cases (a conjunct was dropped)', 'runs in fewer cases (a conjunct was added)'),
+                                            (ast.Or, 'runs in fewer cases (an alternative was dropped)', 'runs in more cases (an alternative was added)')):
+                    a, b = _operands(old_node, op), _operands(node, op)
+                    if len(a) != len(b) and (set(a) < set(b) or set(b) < set(a)):
+                        n += 1
+                        grew = set(a) < set(b)
+                        what = narrower if grew else wider
+                        if op is ast.Or:
+                            what = (wider if not grew else narrower)
+                        ctx.ob(rule, '%s:guard-`%s`-keeps-its-operands' % (name, old[:60]), False,
+                               'on the reference tree the guard is `%s`; now it is `%s`: the guarded code %s' % (old[:90], t[:120], what),
+                               m.loc(node))
+    return n
+
+
 STATE_FLAGS = {
     ('cencoding._assemble_objects', 'have_null'): 'state of the list being assembled (does the current list hold a null), '
                                                   'deliberately re-evaluated per element; not a summary of the loop',
@@ -511,3 +573,4 @@ def general_rules(ctx, tag, callers):
     callsite_agreement_rule(ctx, tag + '.CS8', callers=callers)
     flag_accumulation_rule(ctx, tag + '.CS9', callers=callers)
     if_chain_rule(ctx, tag + '.CS10', callers=callers)
+    guard_conjunct_rule(ctx, tag + '.CS11', callers=callers)
